@@ -453,6 +453,9 @@ func (a *Aidc) ToAidu() (aidu Aidu) {
 func (o *Owner_t) ToUserID() *UserID_t {
 	userID := &UserID_t{}
 	oBytes := types.CstrToBytes(o[:])
+	if len(oBytes) == 0 { // empty owner (e.g. a zeroed index entry)
+		return userID
+	}
 	if !types.Isalnum(oBytes[len(oBytes)-1]) {
 		oBytes = oBytes[:len(oBytes)-1]
 	}
